@@ -15,7 +15,15 @@ use stun_rs::{HMACKey, MessageDecoder, StunAttribute};
 /// Two acceptance routes exist in the API and both are tried: the validating decoder, and the
 /// get_input_text + validate pair the agent uses.
 pub fn accepted(bytes: &[u8], ty: u16, key: &HMACKey, plain: &MessageDecoder, validating: &MessageDecoder) -> Result<bool, String> {
+    accepted_each(bytes, ty, key, plain, validating).map(|(a, b)| a || b)
+}
+
+/// (accepted by the validating decoder, accepted by get_input_text + validate): a tampered message must be refused by both,
+/// an untampered one accepted by both
+pub fn accepted_each(bytes: &[u8], ty: u16, key: &HMACKey, plain: &MessageDecoder, validating: &MessageDecoder) -> Result<(bool, bool), String> {
     guard(|| {
+        let mut by_decoder = false;
+        let mut by_validate = false;
         let has = |m: &stun_rs::StunMessage| {
             m.attributes().iter().any(|a| match a {
                 StunAttribute::MessageIntegrity(_) => ty == T_MI,
@@ -25,7 +33,7 @@ pub fn accepted(bytes: &[u8], ty: u16, key: &HMACKey, plain: &MessageDecoder, va
         };
         if let Ok((m, _)) = validating.decode(bytes) {
             if has(&m) {
-                return true;
+                by_decoder = true;
             }
         }
         if let Ok((m, _)) = plain.decode(bytes) {
@@ -34,14 +42,14 @@ pub fn accepted(bytes: &[u8], ty: u16, key: &HMACKey, plain: &MessageDecoder, va
                     StunAttribute::MessageIntegrity(x) if ty == T_MI => {
                         if let Some(input) = stun_rs::get_input_text::<MessageIntegrity>(bytes) {
                             if x.validate(&input, key) {
-                                return true;
+                                by_validate = true;
                             }
                         }
                     }
                     StunAttribute::MessageIntegritySha256(x) if ty == T_SHA => {
                         if let Some(input) = stun_rs::get_input_text::<MessageIntegritySha256>(bytes) {
                             if x.validate(&input, key) {
-                                return true;
+                                by_validate = true;
                             }
                         }
                     }
@@ -49,7 +57,7 @@ pub fn accepted(bytes: &[u8], ty: u16, key: &HMACKey, plain: &MessageDecoder, va
                 }
             }
         }
-        false
+        (by_decoder, by_validate)
     })
 }
 
@@ -132,13 +140,14 @@ fn check_msg(lm: &LMsg, k: &Keyed, near: &[(KeySpec, HMACKey)], walk_faults: boo
         rep.sym("decoder-construction-routes");
     }
     for t in &macs {
-        match accepted(&enc, t.ty, k.subject, &plain, &validating) {
-            Ok(true) => {
+        match accepted_each(&enc, t.ty, k.subject, &plain, &validating) {
+            Ok((true, true)) => {
                 rep.sym("accepted-untampered");
             }
-            Ok(false) => {
+            Ok((d, v)) => {
                 let tail: Vec<&str> = lm.attrs.iter().filter(|a| matches!(a, L::Mi | L::Sha | L::Fp)).map(|a| a.kind()).collect();
-                rep.violate(format!("untampered-message-rejected/{}/tail={}", kind_name(t.ty), tail.join("+")), "", replay());
+                let by = if !d && !v { "" } else if !d { "/by-the-validating-decoder" } else { "/by-get_input_text-and-validate" };
+                rep.violate(format!("untampered-message-rejected{}/{}/tail={}", by, kind_name(t.ty), tail.join("+")), "", replay());
                 return;
             }
             Err(pn) => {
